@@ -14,7 +14,7 @@ func main() {
 	luaprop.Main(&luaprop.Config{
 		Prop: "C04",
 		Rule: "generated programs dominated by metatable shapes: __index/__newindex through tables and functions, arithmetic/concat handlers with the object on the left, right or both sides, " +
-			"__eq/__lt/__le (with and without __le), __call/__unm/__tostring/__metatable, rawget/rawset/rawequal; handlers log their operands through emit; traces compared with the reference evaluator; " +
+			"__eq/__lt/__le (with and without __le), __call/__unm/__tostring/__metatable, rawget/rawset/rawequal; one fifth are small programs of the wave-5 shapes (raw operations next to the operators on pairs of host-created userdata/tables sharing a metatable, only the handler, or nothing; __index/__newindex chains of 98..102 objects around the documented depth with number, run-time string, constant string, method and global keys and every ending; the operator matrix on userdata); host API scenarios (RawEqual/Equal, GetTable/GetField/SetTable/SetField on chains of 1..102 objects) checked Go-side; handlers log their operands through emit; traces compared with the reference evaluator; " +
 			"non-trivial = at least 5 emitted rows or an error outcome; distinct by Gallina term",
 		Modes:       modes(f),
 		NQuick:      400,
